@@ -41,6 +41,21 @@ def with_patch(prop, patch):
         shutil.rmtree(tmp, ignore_errors=True)
 
 
+
+def trim_go_cache(limit_gb=20):
+    """Scratch copies used to fill the Go build cache (one set of export data per scratch path) until the disk was
+    full; the loader now builds with -trimpath, which makes the entries path-independent. Safety valve all the same."""
+    try:
+        out = subprocess.run(["go", "env", "GOCACHE"], capture_output=True, text=True).stdout.strip()
+        if not out or not os.path.isdir(out):
+            return
+        kb = int(subprocess.run(["du", "-sk", out], capture_output=True, text=True).stdout.split()[0])
+        if kb > limit_gb * 1024 * 1024:
+            subprocess.run(["go", "clean", "-cache"], capture_output=True)
+    except Exception:
+        pass
+
+
 def main():
     prop = sys.argv[1]
     sel = set(sys.argv[2:]) or {"base", "neg", "seeds", "self"}
@@ -102,6 +117,7 @@ def main():
                 print(l[:300])
         if p.returncode != 0:
             bad += 1
+    trim_go_cache()
     print("RESULT %s: %s" % (prop, "OK" if bad == 0 else "%d problem group(s)" % bad))
     sys.exit(1 if bad else 0)
 
